@@ -88,6 +88,10 @@ def fixed_cases(tier):
         _c("10-bit noise, preset 5", 136, 72, 6, bd=10, content=0, enc_mode=5, hierarchical_levels=2),
         _c("2x2 tiles", 192, 128, 6, content=0, enc_mode=8, tile_columns=1, tile_rows=1),
         _c("4 tile rows, portrait", 128, 256, 5, enc_mode=8, hierarchical_levels=2, tile_rows=2),
+        # uniform tile spacing with FEWER tiles than 2^log2 (5 SB columns, log2 = 2 -> 3 tile columns): tile ids are not 0..2^n-1
+        # (seeded change C01-1: context_update_tile_id written as 2^n - 1)
+        _c("3 tile columns (log2 2)", 320, 128, 6, content=4, enc_mode=8, hierarchical_levels=2, tile_columns=2),
+        _c("3x3 tiles (log2 2x2)", 320, 320, 4, content=4, enc_mode=8, hierarchical_levels=1, tile_columns=2, tile_rows=2),
         _c("screen content", 128, 96, 6, content=5, enc_mode=8, screen_content_mode=1),
         _c("film grain, 8-bit", 128, 64, 9, content=0, enc_mode=6, hierarchical_levels=3, film_grain_denoise_strength=10),
         _c("film grain, 10-bit", 96, 80, 6, bd=10, content=0, enc_mode=8, hierarchical_levels=2, film_grain_denoise_strength=30),
